@@ -23,6 +23,7 @@ import (
 	"path/filepath"
 	"strings"
 	"sync"
+	"unicode/utf8"
 
 	oci "github.com/opencontainers/runtime-spec/specs-go"
 	orderedyaml "gopkg.in/yaml.v3"
@@ -140,6 +141,7 @@ func (s *Spec) write(overwrite bool) error {
 		data = append([]byte("---\n"), data...)
 	} else {
 		data, err = json.Marshal(s.Spec)
+		data = escapeJSONForYAML(data)
 	}
 	if err != nil {
 		return fmt.Errorf("failed to marshal Spec file: %w", err)
@@ -176,6 +178,32 @@ func (s *Spec) write(overwrite bool) error {
 	}
 
 	return err
+}
+
+// escapeJSONForYAML escapes the characters which encoding/json leaves as they
+// are in strings, but which our YAML based Spec parser refuses or alters: DEL,
+// the C1 control characters (NEL among them) and the non-characters U+FFFE/F.
+func escapeJSONForYAML(data []byte) []byte {
+	var out []byte
+
+	for i := 0; i < len(data); {
+		r, n := utf8.DecodeRune(data[i:])
+		switch {
+		case (0x7f <= r && r <= 0x9f) || r == 0xfffe || r == 0xffff:
+			if out == nil {
+				out = append(make([]byte, 0, len(data)+16), data[:i]...)
+			}
+			out = append(out, fmt.Sprintf("\\u%04x", r)...)
+		case out != nil:
+			out = append(out, data[i:i+n]...)
+		}
+		i += n
+	}
+
+	if out == nil {
+		return data
+	}
+	return out
 }
 
 // GetVendor returns the vendor of this Spec.
